@@ -26,6 +26,9 @@ PIPELINES = {
     "csv": (["-o", "csv", "--select", ".=v", "--select", "(number? .)=n"], True),
     "only-oa": (["--only-objects-and-arrays"], True),
     "only-oa-select": (["--only-objects-and-arrays", "--select", "(size .)=n", "--select", ".=v"], True),
+    # what a value is told about its place in the input counts values, not malformed bytes
+    "select-index": (["--select", "&index=i", "--select", "&index-in-file=f", "--select", ".=v"], True),
+    "filter-index": (["--filter", "(= 0 (% &index 2))"], True),
 }
 # string values whose contents look like JSON syntax: a resynchronisation that scans bytes instead of tokens trips over them
 SYNTAX_STRINGS = [b'"see [0] and {}"', b'"tail ["', b'"{"', b'"]"', b'"}"', b'"a,b:c"', b'"\\"[1]\\""', b'"{\\"a\\":1}"', b'"[[["',
